@@ -121,8 +121,11 @@ def den_of_result(op, game, res, case):
     if op in ("convert", "rate", "full_ln"):
         out = []
         for ms, m in charts_of(res):
-            c = content(m)
-            out.append({k: sorted((tuple(rnd(x) for x in key), n) for key, n in v.items()) for k, v in c.items()})
+            d = {}
+            for name, tl in m.objs.items():
+                cols = sorted(str(c) for c in tl.df.columns)
+                d[name] = sorted((tuple((rnd(v) if isinstance(v, float) else repr(v)) for v in r) for r in rows(tl, cols)), key=repr)
+            out.append(d)
         return out
     if op in ("hitsound_src", "hitsound_tgt"):
         from rv.monitors.algos import osu_notes
